@@ -22,7 +22,7 @@ from haiway import MISSING, Missing, State  # noqa: E402
 ID = "C04"
 TECHNIQUE = "explicit-state search over operation histories (mutation attempts, updated, copy, deepcopy) on real State instances with a 'value never changes' reference, plus the exhaustive equality pair matrix"
 RULE = (
-    "catalogue of 22 state classes (scalars, Sequence/Set/Mapping/tuple attributes, nested, "
+    "catalogue of 23 state classes (scalars, Sequence/Set/Mapping/tuple attributes, nested, "
     "recursive, generic-specialised, Missing-typed, Literal-typed, defaulted, containers of containers (outer container passed as list or as tuple), subclass, "
     "Any-typed) x 2-3 instances built from mutable argument containers (also read-only views of "
     "dicts the caller keeps) x every operation history up to length L (mutation attempts, updated "
@@ -118,6 +118,16 @@ class AnyS(State):
     w: Sequence[int] = ()
 
 
+class Opaque(State):
+    """holds an arbitrary object as given: an object that claims to equal everything (a wildcard
+    matcher) is still the value that was supplied"""
+
+    h: Any
+    n: int = 0
+
+
+OPAQUE1, OPAQUE2 = ak.AlwaysEq(), ak.AlwaysEq()
+
 ALIASING_ALLOWED = {"AnyS"}
 
 
@@ -160,6 +170,7 @@ CATALOGUE: dict[str, tuple[type, list]] = {
     "SeqSet": (SeqSet, [lambda: {"groups": [{1, 2}]}, lambda: {"groups": ({1, 2}, {3})}]),
     "Lit": (Lit, [lambda: {}, lambda: {"mode": "safe", "level": "hi"}]),
     "OptS": (OptS, [lambda: {}, lambda: {"o": [1]}]),
+    "Opaque": (Opaque, [lambda: {"h": OPAQUE1}, lambda: {"h": OPAQUE1, "n": 3}]),
     "AnyS": (AnyS, [lambda: {"v": [1, 2, 3]}, lambda: {"v": {"k": [1]}, "w": [4]}, lambda: {"v": range(3)}]),
 }
 
@@ -187,6 +198,7 @@ REPLACE: dict[str, dict[str, tuple]] = {
     # invalid replacements of the SAME plain type as the current value
     "Lit": {"mode": (lambda: "safe", "turbo", ""), "level": (lambda: "lo", "mid", 0), "name": (lambda: "z", 7, 0)},
     "OptS": {"o": (lambda: [9], ["bad"], 0)},
+    "Opaque": {"h": (lambda: OPAQUE2, None, None), "n": (lambda: 9, "bad", "")},
     "AnyS": {"v": (lambda: [7], None, None), "w": (lambda: [9], ["bad"], 0)},
 }
 
@@ -281,6 +293,9 @@ def execute(program, ch: Chooser) -> Result:  # noqa: C901, PLR0912, PLR0915
         pristine_args = builders[idx]()
     inst = cls(**args)
     twin = cls(**pristine_args)
+    for k_, v_ in args.items():
+        if isinstance(v_, ak.AlwaysEq) and getattr(inst, k_, None) is not v_:
+            return Result(f"{name}/construction", True, [viol("construction", "opaque-value-not-stored", "the object that was supplied", ak.describe(getattr(inst, k_, None)))], {"cls": name})
     base = snap(inst)
     attrs = list(cls.__ATTRIBUTES__)
     rep = REPLACE[name]
@@ -307,6 +322,8 @@ def execute(program, ch: Chooser) -> Result:  # noqa: C901, PLR0912, PLR0915
             if len(subset) == 1 and cls.__ATTRIBUTES__[subset[0]].default is not MISSING or (len(subset) == 1 and name == "MissT"):
                 # replacing with MISSING means "not given": the attribute falls back to its default
                 ops.append((f"updated {subset[0]}=MISSING", ("upd", subset, ("missing", subset[0]))))
+                # ... also when the caller writes Missing() instead of the constant (same object)
+                ops.append((f"updated {subset[0]}=Missing()", ("upd", subset, ("missing-call", subset[0]))))
             if len(subset) == 1 and _equal_but_invalid(getattr(inst, subset[0], None)) is not None:
                 # a replacement that compares == to the current value but has a type the
                 # annotation rejects (1.0 for 1, (1.0, 2.0) for (1, 2) ...) must be re-validated
@@ -352,6 +369,8 @@ def execute(program, ch: Chooser) -> Result:  # noqa: C901, PLR0912, PLR0915
                 kw["unknown_name"] = 1
             elif isinstance(extra, tuple) and extra[0] == "missing":
                 kw = {extra[1]: MISSING}
+            elif isinstance(extra, tuple) and extra[0] == "missing-call":
+                kw = {extra[1]: Missing()}
             elif isinstance(extra, tuple) and extra[0] == "eqbad":
                 kw = {extra[1]: _equal_but_invalid(getattr(inst, extra[1]))}
                 expect_fail = True
@@ -359,7 +378,10 @@ def execute(program, ch: Chooser) -> Result:  # noqa: C901, PLR0912, PLR0915
                 kw[extra[1]] = rep[extra[1]][2 if extra[0] == "bad2" else 1]
                 expect_fail = True
             try:
-                new = inst.updated(**copy.deepcopy(kw))
+                new = inst.updated(**{k_: (v_ if isinstance(v_, ak.AlwaysEq) else copy.deepcopy(v_)) for k_, v_ in kw.items()})
+                for k_, v_ in kw.items():
+                    if isinstance(v_, ak.AlwaysEq) and not expect_fail and getattr(new, k_, None) is not v_:
+                        viols.append(viol("updated", "named-attribute-not-replaced", "the object that was supplied", ak.describe(getattr(new, k_, None)), history=hist))
                 if expect_fail:
                     viols.append(viol("updated", "invalid-accepted", "raises", ak.describe(new), history=hist))
                 else:
